@@ -693,3 +693,49 @@ func (d *ldoc) wordMay(l lline) []bool {
 	}
 	return o
 }
+
+// ---- vertical placement of the running items ----------------------------------------------------------
+
+// vposKinds: where the outermost running item of a band sits relative to its page edge: fraction of the page height
+// by which its box (top edge for the top band, bottom edge for the bottom band) lies beyond the edge. 0 = box exactly
+// at the edge. ("inside" - 30 / 18 pt inside the page - is the placement of the whole rest of the product.)
+var vposKinds = []struct {
+	name string
+	frac float64
+}{{"edge", 0}, {"0.5%", 0.005}, {"1%", 0.01}, {"2%", 0.02}, {"3%", 0.03}}
+
+// shiftBand moves every line of one margin band outwards so that the outermost one has its box edge frac*pageHeight
+// beyond the page edge; the other lines of the band keep their distance to it.
+func (d *ldoc) shiftBand(side string, frac float64) {
+	for p := range d.pages {
+		PH := d.PHs[p]
+		// current distance of the outermost box edge from the page edge (inside = positive)
+		inner := 1e9
+		for _, l := range d.pages[p] {
+			switch {
+			case side == "top" && d.side(l) == "top":
+				if v := PH - (l.y + l.h); v < inner {
+					inner = v
+				}
+			case side == "bottom" && d.side(l) == "bottom":
+				if l.y < inner {
+					inner = l.y
+				}
+			}
+		}
+		if inner == 1e9 {
+			continue
+		}
+		delta := inner + frac*PH
+		for i := range d.pages[p] {
+			l := &d.pages[p][i]
+			switch {
+			case side == "top" && d.side(*l) == "top":
+				l.y += delta
+			case side == "bottom" && d.side(*l) == "bottom":
+				l.y -= delta
+			}
+		}
+	}
+	d.rep = 0
+}
